@@ -128,6 +128,8 @@ func runC12(c *Ctx) {
 
 	// ---- validate -----------------------------------------------------------------
 	c12Validate(c, gd, val)
+	// the stored object holds exactly the bytes encoded now: the writer replaces any previous object
+	c18Writer(c, gd, "C12.write-gate")
 
 	// ---- status classes -------------------------------------------------------------
 	for _, b := range h.Blocks {
@@ -202,41 +204,65 @@ func runC12(c *Ctx) {
 	c12NilDerefs(c, gd, val)
 }
 
-func c12Validate(c *Ctx, gd *Module, val *ssa.Function) {
+// c12AcceptHeader: validate accepts (returns nil) only reports whose week parses as a date,
+// whose config is a valid semantic version and whose X is not zero. Shared with C18: the
+// upload object name <Week>/<X>.json is confined to the bucket because the week is a date.
+func c12AcceptHeader(c *Ctx, gd *Module, val *ssa.Function, rule string) {
 	r := c.R
-	// accept return: the Return of the nil constant
+	namer := func(v ssa.Value) (string, bool) {
+		if e, ok := v.(*ssa.Extract); ok && e.Index == 1 {
+			if cl, ok := e.Tuple.(*ssa.Call); ok && calleeName(&cl.Call) == "time.Parse" {
+				k, _ := constOf(cl.Call.Args[0])
+				_, f, okf := fieldLoad(cl.Call.Args[1])
+				if k == gd_dateOnly(gd) && okf && f == "Week" {
+					return "weekErr", true
+				}
+			}
+		}
+		if cl, ok := v.(*ssa.Call); ok && calleeName(&cl.Call) == "golang.org/x/mod/semver.IsValid" {
+			if _, f, okf := fieldLoad(cl.Call.Args[0]); okf && f == "Config" {
+				return "semverOK", true
+			}
+		}
+		if _, f, ok := fieldLoad(v); ok && f == "X" {
+			return "X", true
+		}
+		return "", false
+	}
+	want := bAnd{[]BExpr{bBool{"isnil(weekErr)"}, bBool{"semverOK"}, mkOrd("X", "!=", "0")}}
+	n := 0
 	for _, b := range val.Blocks {
 		ret, ok := b.Instrs[len(b.Instrs)-1].(*ssa.Return)
-		if !ok || !isNilConst(ret.Results[0]) {
+		if !ok {
 			continue
 		}
+		// the conditions under which nil is returned here: the block's own path condition, or,
+		// for a result merged from several exits, that of each edge carrying nil
+		var conds []BExpr
 		fb := newFormulaBuilder()
-		fb.namer = func(v ssa.Value) (string, bool) {
-			if e, ok := v.(*ssa.Extract); ok && e.Index == 1 {
-				if cl, ok := e.Tuple.(*ssa.Call); ok && calleeName(&cl.Call) == "time.Parse" {
-					k, _ := constOf(cl.Call.Args[0])
-					_, f, okf := fieldLoad(cl.Call.Args[1])
-					if k == gd_dateOnly(gd) && okf && f == "Week" {
-						return "weekErr", true
-					}
+		fb.namer = namer
+		if isNilConst(ret.Results[0]) {
+			conds = append(conds, fb.reach(b))
+		} else if phi, ok := ret.Results[0].(*ssa.Phi); ok {
+			for i, e := range phi.Edges {
+				if isNilConst(e) {
+					conds = append(conds, bAnd{[]BExpr{fb.reach(b), fb.edgeCond(phi.Block().Preds[i], phi.Block())}})
 				}
 			}
-			if cl, ok := v.(*ssa.Call); ok && calleeName(&cl.Call) == "golang.org/x/mod/semver.IsValid" {
-				if _, f, okf := fieldLoad(cl.Call.Args[0]); okf && f == "Config" {
-					return "semverOK", true
-				}
-			}
-			if _, f, ok := fieldLoad(v); ok && f == "X" {
-				return "X", true
-			}
-			return "", false
 		}
-		got := fb.reach(b)
-		want := bAnd{[]BExpr{bBool{"isnil(weekErr)"}, bBool{"semverOK"}, mkOrd("X", "!=", "0")}}
-		ok2, why, _ := implies(got, want)
-		r.Check("C12.validate-complete", "validate/accept implies week, config and X are valid", gd.Pos(ret.Pos()), ok2,
-			"return nil ⇒ time.Parse(DateOnly, r.Week) ok ∧ semver.IsValid(r.Config) ∧ r.X != 0; "+why)
+		for _, got := range conds {
+			n++
+			ok2, why, _ := implies(got, want)
+			r.Check(rule, "validate/accept implies week, config and X are valid", gd.Pos(ret.Pos()), ok2,
+				"return nil ⇒ time.Parse(DateOnly, r.Week) ok ∧ semver.IsValid(r.Config) ∧ r.X != 0; "+why)
+		}
 	}
+	r.Check(rule, "validate/has an accepting return", gd.Pos(val.Pos()), n >= 1, fmt.Sprintf("%d", n))
+}
+
+func c12Validate(c *Ctx, gd *Module, val *ssa.Function) {
+	r := c.R
+	c12AcceptHeader(c, gd, val, "C12.validate-complete")
 	// per program / counter / stack rejections (the C11 reference set)
 	calls := approvalCallsIn(val)
 	bySig := map[string][]approvalCall{}
